@@ -317,7 +317,16 @@ def mutate(r, v):
     if isinstance(v, bool):
         return not v
     if isinstance(v, int):
-        return v + r.choice([1, -1]) if r.random() < 0.7 else str(v)
+        x = r.random()
+        if x < 0.3:
+            # a different integer that looks equal once the difference is narrowed to 32 bits, or whose difference overflows
+            w = v + r.choice([1, -1, 2, 3]) * (1 << r.choice([32, 32, 33, 40, 63]))
+            if -(1 << 63) <= w < (1 << 63):
+                return w
+            w = v - (w - v)
+            if -(1 << 63) <= w < (1 << 63):
+                return w
+        return v + r.choice([1, -1]) if x < 0.8 else str(v)
     if isinstance(v, str):
         return v + "x" if r.random() < 0.7 else (v[:-1] if v else 0)
     if isinstance(v, F64):
